@@ -202,7 +202,10 @@ func propC18(c *Ctx) {
 	checkBlockMapMutation(c, "R18.4")
 	// (b) escape of guarded storage
 	for _, row := range guardedByTable {
-		f := w.Field(row.short, row.typ, row.field)
+		f := w.FieldOpt(row.short, row.typ, row.field)
+		if f == nil {
+			continue
+		}
 		if !carriesLock(f.Type(), 0) {
 			continue // plain data published once under the lock may be returned; lockable shared objects may not
 		}
@@ -460,7 +463,11 @@ func propC18GuardedBy(c *Ctx, res *Resolver) {
 	}
 	rows := map[*types.Var]rowT{}
 	for _, r := range guardedByTable {
-		f := w.Field(r.short, r.typ, r.field)
+		f := w.FieldOpt(r.short, r.typ, r.field)
+		if f == nil {
+			c.Stats["guarded_table_rows_gone"]++
+			continue // the field no longer exists: nothing to guard
+		}
 		rows[f] = rowT{f, r.mutex, r.typ}
 		if r.mutex != "" {
 			w.Field(r.short, r.typ, r.mutex)
